@@ -127,6 +127,7 @@ func (g *gen) handlerPlan(hangP, errP float64) *HandlerPlan {
 		p.Reply = "hang"
 	case x < hangP+errP:
 		p.Reply = "err"
+		p.ErrWithResp = g.chance(0.3)
 		p.Code = 1 + g.r.IntN(16)
 		p.Msg = "planned-" + pick(g.r, "a", "b", "c") + "-" + string(rune('0'+g.r.IntN(10)))
 		switch g.r.IntN(8) {
